@@ -346,8 +346,11 @@ func outsideMarkers(s string) string {
 func (c06) Run(t *tape.Tape, tier Tier) *Result {
 	res := &Result{}
 	alpha := gen.Hostile
+	congruence := false
 	if t.Draw(3) == 2 {
-		alpha = gen.Regular
+		// marker-free inputs (the empty string included) for congruence
+		alpha = gen.RegularE
+		congruence = true
 	}
 	ts := newTaint(t, tier, res, alpha, true, "C06")
 	var unsafe []gen.Token
@@ -375,7 +378,7 @@ func (c06) Run(t *tape.Tape, tier Tier) *Result {
 			if prob := markerProblem(r); prob != "" {
 				res.add(Violation{Prop: "C06", Oracle: "well-formed:" + verb, Culprit: markerCulprit(r, prob), Expected: "balanced, non-nested markers on every line", Observed: prob + ": " + short(fmt.Sprintf("%q", r)), Where: where})
 			}
-			if alpha == gen.Regular {
+			if congruence {
 				plain := obs.Fmt(verb, e)
 				stripped := obs.S(func() string { return redact.RedactableString(r).StripMarkers() })
 				if stripped != plain && !obs.IsPanic(plain) {
